@@ -21,6 +21,11 @@ CONSTANTS ShiftOf, NodesOf, NfOf,   \* functions on x ids / Q2 ids
 
 YId == 0                            \* the single y value used by cross-section requests
 SFNames == {"F2", "FL"}
+\* "F2s": the card spells the observable without heavyness ("F2" for F2_total).  Runner.__init__ files the SF object of a card
+\* entry under the CARD spelling, runner.get_sf - the one target-mass corrections and cross sections go through - under the
+\* canonical name: an SF object of its own for the top-level elements, the canonical one for everything internal.
+ShortName == "F2s"
+KindOf(n) == IF n = ShortName THEN "F2" ELSE n
 XSName  == "XS"                     \* XSHERANCAVG-like: combines F2 and FL (exs.py skips F3 when its coefficient is 0)
 
 \* a kinematics dict = sequence of <<name, value>> in dict order
@@ -57,7 +62,7 @@ TmcT(m, o, x, q) ==
 SFT(m, o, x, q) == IF m = 0 THEN RawT(o, x, q) ELSE TmcT(m, o, x, q)
 Ideal(m, name, k) ==
   IF name = XSName THEN <<"xs", Get(k, "x"), Get(k, "Q2"), SFT(m, "F2", Get(k, "x"), Get(k, "Q2")), SFT(m, "FL", Get(k, "x"), Get(k, "Q2"))>>
-  ELSE SFT(m, name, Get(k, "x"), Get(k, "Q2"))
+  ELSE SFT(m, KindOf(name), Get(k, "x"), Get(k, "Q2"))
 
 \* ------------------------------------------------------------------ implementation-shaped part
 \* a "machine" M = [h, c, ev, sv, t] is threaded through the nested calls of one step (t = TMC mode)
@@ -72,7 +77,7 @@ GetEsf(M0, o, k, useRaw) ==
       key  == Key(k, flag) IN
   IF key \in DOMAIN M.c[o] THEN <<M, M.c[o][key]>>
   ELSE LET id  == NewId(M.h)
-           obj == [cls |-> IF flag THEN "TMC" ELSE "ESF", obs |-> o, x |-> Get(k, "x"), q |-> Get(k, "Q2"),
+           obj == [cls |-> IF flag THEN "TMC" ELSE "ESF", obs |-> KindOf(o), x |-> Get(k, "x"), q |-> Get(k, "Q2"),
                    computed |-> FALSE]
        IN <<[M EXCEPT !.h = @ @@ (id :> obj), !.c[o] = @ @@ (key :> id)], id>>
 
@@ -204,7 +209,7 @@ SlotsIdeal == \A i \in 1..Len(plan) : \A j \in 1..Len(plan[i].kins) :
                 Filled(i, j) => slots[i][j] = Ideal(tmc, plan[i].name, plan[i].kins[j])
 \* a cache entry holds an object of that SF with the kinematics and TMC flag the key stands for
 CacheCoherent == \A o \in DOMAIN cache : \A key \in DOMAIN cache[o] :
-                   LET ob == heap[cache[o][key]] IN ob.obs = o /\ (ob.cls = "TMC") = key[Len(key)]
+                   LET ob == heap[cache[o][key]] IN ob.obs = KindOf(o) /\ (ob.cls = "TMC") = key[Len(key)]
 \* when get_result returns, every requested slot is filled
 AllFilledAtReturn == Returned => \A i \in 1..Len(plan) : \A j \in 1..Len(plan[i].kins) : Filled(i, j)
 \* results never change once stored (second call gives the same terms)
